@@ -164,6 +164,14 @@ def check_values(r, res, L, kinds, reads, report, ext=None):
     for arr in ('states', 'variables'):
         for e in res.get(arr, []):
             idx[L.class_of(e['comp'], e['var'])] = (arr, e['index'])
+    # second evaluation point: the integrator moved the states (same voi), then only computeVariables runs; every variable
+    # must match the equations at the NEW states (rates are not recomputed by that call and are not compared)
+    second = None
+    ref2 = None
+    cur = {'ref': ref}
+    if 'S' in kinds and all(i in idx for i in range(L.n) if kinds[i] == 'S'):
+        ref2 = D.values(kinds, reads, init=D.INIT2)
+        second = {'states': {idx[i][1]: D.INIT2[i] for i in range(L.n) if kinds[i] == 'S'}, 'before': lambda: cur.update(ref=ref2)}
 
     def nla(obj, u, n, arrays):
         sent = [98765.4321 + 7 * i for i in range(n)]
@@ -173,7 +181,7 @@ def check_values(r, res, L, kinds, reads, report, ext=None):
         for sv in sent:
             hit = [i for i, x in enumerate(vs) if x == sv]
             cls = next((c for c, (a, ix) in idx.items() if a == 'variables' and hit and ix == hit[0]), None)
-            want.append(ref[cls] if cls is not None and not isinstance(ref.get(cls), tuple) else float('nan'))
+            want.append(cur['ref'][cls] if cls is not None and not isinstance(cur['ref'].get(cls), tuple) else float('nan'))
         f = obj(want)
         for fi in f:
             if not abs(fi) <= 1e-9:
@@ -183,13 +191,15 @@ def check_values(r, res, L, kinds, reads, report, ext=None):
     cdir = None
     try:
         so, cdir = X.compile_c(res['c_h'], res['c_c'], r.work(), 'g', strict=False)
-        outs['C'] = X.CRun(so, res['c_h']).run(voi=D.VOI, nla=nla)
+        cur['ref'] = ref
+        outs['C'] = X.CRun(so, res['c_h']).run(voi=D.VOI, nla=nla, second=second)
     except X.CompileError as ce:
         report('values:c-does-not-compile', {'diagnostics': ce.diag[:800]})
     except Exception as ex:
         report('values:C-run-raised:%s' % type(ex).__name__, {'error': str(ex)[:300]})
     try:
-        outs['Python'] = X.PyRun(res['py']).run(voi=D.VOI, nla=nla)
+        cur['ref'] = ref
+        outs['Python'] = X.PyRun(res['py']).run(voi=D.VOI, nla=nla, second=second)
     except Exception as ex:
         report('values:Python-run-raised:%s' % type(ex).__name__, {'error': str(ex)[:300]})
     if cdir:
@@ -207,6 +217,8 @@ def check_values(r, res, L, kinds, reads, report, ext=None):
                 got = o[arr][ix]
                 if not X.close(got, ref[i]):
                     report('values:%s:value-wrong:%s' % (prof, kinds[i]), {'var': i, 'got': repr(got), 'want': repr(ref[i])})
+                elif ref2 is not None and 'second' in o and not X.close(o['second'][arr][ix], ref2[i]):
+                    report('values:%s:stale-after-the-states-moved:%s' % (prof, kinds[i]), {'var': i, 'got': repr(o['second'][arr][ix]), 'want': repr(ref2[i]), 'at-first-point': repr(got)})
 
 
 def families(opts):
